@@ -746,3 +746,148 @@ Proof.
   f_equal.
   destruct (absolutePath u || negb match pathSegs u with [] => true | _ :: _ => false end && is_host_set u); reflexivity.
 Qed.
+
+Definition no_ip (u : uri) : bool :=
+  match ip4 u, ip6 u, ipFuture u with None, None, None => true | _, _, _ => false end.
+
+(* the text uriToString gives for the result is the RFC's recomposed target, for hosts printed as written *)
+Theorem resolve_text compat rel base :
+  wf rel = true -> wf base = true -> scheme base <> None -> corner compat rel base = false ->
+  no_ip rel = true -> no_ip base = true ->
+  to_text (snd (add_base compat rel base))
+  = recompose (guard_slashes (transform (negb compat) (five_of_uri base) (five_of_uri rel))).
+Proof.
+  intros Hwr Hwb Hsb Hc Hir Hib.
+  destruct (resolve_five compat rel base Hwr Hwb Hsb Hc) as [_ E]. rewrite <- E.
+  assert (forall u, no_ip u = true -> one_kind u = true) as Hone
+    by (intros u; unfold no_ip, one_kind; destruct (ip4 u), (ip6 u), (ipFuture u); intros H; try discriminate H; reflexivity).
+  pose proof (resolve_authority compat rel base (Hone _ Hir) (Hone _ Hib) Hsb) as Ea.
+  assert (no_ip (if keeps_scheme compat (scheme base) rel || is_host_set rel then rel else base) = true) as Hn
+    by (destruct (keeps_scheme compat (scheme base) rel || is_host_set rel); assumption).
+  set (src := if keeps_scheme compat (scheme base) rel || is_host_set rel then rel else base) in *.
+  set (d := snd (add_base compat rel base)) in *.
+  unfold auth_fields in Ea. injection Ea as _ _ E4 E6 Ef _.
+  unfold no_ip in Hn. rewrite <- E4, <- E6, <- Ef in Hn.
+  destruct (ip4 d) eqn:D4; [discriminate Hn|]. destruct (ip6 d) eqn:D6; [discriminate Hn|].
+  destruct (ipFuture d) eqn:Df; [discriminate Hn|].
+  apply to_text_recompose; assumption.
+Qed.
+
+(* ---------------------------------------------------------------- the corner on objects *)
+Definition leading_empty (segs : list text) : bool := match segs with [] :: _ :: _ => true | _ => false end.
+
+(* host-less result, rootless path to clean (the reference's own, or the merge with a host-less rootless
+   base), and a leading empty segment after cleaning *)
+Definition corner_obj (compat : bool) (rel base : uri) : bool :=
+  if is_host_set rel || absolutePath rel then false
+  else if keeps_scheme compat (scheme base) rel then leading_empty (rds_p false false (pathSegs rel))
+  else match pathSegs rel with
+       | [] => false
+       | _ => if is_host_set base || absolutePath base then false
+              else leading_empty (rds_walk false false false [] (removelast (pathSegs base) ++ pathSegs rel))
+       end.
+
+Lemma head_join_leading R : forallb noslash R = true -> head_is 47 (join_text R) = leading_empty R.
+Proof.
+  intros H. destruct R as [|[|c s] [|x r]]; try reflexivity.
+  - cbn [forallb] in H. apply andb_true_iff in H. destruct H as [Hc _].
+    apply noslash_cons in Hc. destruct Hc as [Hc _]. apply N.eqb_neq in Hc. exact Hc.
+  - cbn [forallb] in H. apply andb_true_iff in H. destruct H as [Hc _].
+    apply noslash_cons in Hc. destruct Hc as [Hc _]. apply N.eqb_neq in Hc. exact Hc.
+Qed.
+
+Lemma corner_rootless segs : segs <> [] -> forallb noslash segs = true -> first_nonempty segs = true ->
+  match join_text segs with
+  | [] => false
+  | _ => negb (head_is 47 (join_text segs)) && head_is 47 (rds_keep_kind (join_text segs))
+  end = leading_empty (rds_walk false false false [] segs).
+Proof.
+  intros Hne Hs Hf. destruct (rootless_text segs Hs Hf Hne) as (c & t & Et & Hc).
+  assert (head_is 47 (join_text segs) = false) as Hh by (rewrite Et; exact Hc).
+  rewrite <- (rds_walk_rfc_rootless false false segs Hne Hs Hh).
+  rewrite Hh. rewrite head_join_leading by (apply walk_forallb; try reflexivity; exact Hs).
+  rewrite Et. reflexivity.
+Qed.
+
+Lemma corner_rooted (raw : text) x : head_is 47 raw = true ->
+  match raw with [] => false | _ => negb (head_is 47 raw) && x end = false.
+Proof. intros H. rewrite H. destruct raw; reflexivity. Qed.
+
+Lemma path_text_rootless u : is_host_set u = false -> absolutePath u = false ->
+  path_text u = join_text (pathSegs u).
+Proof. intros Hh Ha. unfold path_text, path_text_of. rewrite Hh, Ha, andb_false_r. reflexivity. Qed.
+
+Lemma path_text_abs u : is_host_set u = false -> absolutePath u = true -> head_is 47 (path_text u) = true.
+Proof. intros Hh Ha. unfold path_text, path_text_of. rewrite Hh, Ha. reflexivity. Qed.
+
+Theorem corner_obj_spec compat rel base :
+  wf rel = true -> wf base = true -> scheme base <> None ->
+  corner compat rel base = corner_obj compat rel base.
+Proof.
+  intros Hwr Hwb Hsb. destruct (scheme base) as [sb|] eqn:Esb; [|congruence]. clear Hsb.
+  pose proof (wf_scheme base sb Hwb Esb) as Hnul.
+  unfold corner. rewrite corner_eq, transform_eq. unfold corner_obj.
+  cbn [five_of_uri f_scheme]. rewrite Esb.
+  match goal with |- context [transform_rs (if ?c then None else scheme rel)] =>
+    assert (c = compat && is_some (scheme rel) && range_eqb (Some sb) (scheme rel)) as Etest
+      by exact (same_scheme_test compat rel sb Hnul);
+    rewrite Etest end.
+  assert (keeps_scheme compat (Some sb) rel
+          = is_some (scheme rel) && negb (compat && is_some (scheme rel) && range_eqb (Some sb) (scheme rel)))
+    as Ek by reflexivity.
+  assert (is_some_t (scheme rel) = is_some (scheme rel)) as Eis by (destruct (scheme rel); reflexivity).
+  rewrite Eis, <- Ek.
+  pose proof (wf_noslash rel Hwr) as Hsr. pose proof (wf_noslash base Hwb) as Hsbs.
+  assert (forall u, is_host_set u = false -> auth_text u = None) as Enone
+    by (intros u Hh; unfold auth_text; rewrite Hh; reflexivity).
+  assert (forall u, is_host_set u = true -> exists a, auth_text u = Some a) as Esome
+    by (intros u Hh; unfold auth_text; rewrite Hh; eexists; reflexivity).
+  destruct (keeps_scheme compat (Some sb) rel) eqn:Hk.
+  - (* the reference keeps its scheme *)
+    assert (exists sr, (if compat && is_some (scheme rel) && range_eqb (Some sb) (scheme rel)
+                        then None else scheme rel) = Some sr) as [sr Esr].
+    { symmetry in Ek. apply andb_true_iff in Ek. destruct Ek as [H1 H2]. apply negb_true_iff in H2.
+      rewrite H2. destruct (scheme rel) as [sr|]; [exists sr; reflexivity|discriminate H1]. }
+    rewrite Esr. unfold transform_rs, corner_rs. cbn [five_of_uri f_scheme f_auth f_path f_query f_frag orb].
+    destruct (is_host_set rel) eqn:Hh.
+    + destruct (Esome rel Hh) as [a Ea]. rewrite Ea. reflexivity.
+    + rewrite (Enone rel Hh). cbn [orb]. destruct (absolutePath rel) eqn:Ha.
+      * apply corner_rooted. exact (path_text_abs rel Hh Ha).
+      * rewrite (path_text_rootless rel Hh Ha). unfold rds_p. destruct (pathSegs rel) as [|r1 rs] eqn:Ep; [reflexivity|].
+        rewrite <- Ep in *. apply corner_rootless; [rewrite Ep; discriminate|exact Hsr|].
+        exact (wf_rootless_first rel Hwr Hh Ha).
+  - assert ((if compat && is_some (scheme rel) && range_eqb (Some sb) (scheme rel)
+             then None else scheme rel) = None) as Ers.
+    { destruct (compat && is_some (scheme rel) && range_eqb (Some sb) (scheme rel)); [reflexivity|].
+      rewrite andb_true_r in Ek. destruct (scheme rel); [discriminate Ek|reflexivity]. }
+    rewrite Ers. unfold transform_rs, corner_rs. cbn [five_of_uri f_scheme f_auth f_path f_query f_frag orb].
+    destruct (is_host_set rel) eqn:Hh.
+    + destruct (Esome rel Hh) as [a Ea]. rewrite Ea. reflexivity.
+    + rewrite (Enone rel Hh). cbn [orb is_some_t]. destruct (absolutePath rel) eqn:Ha.
+      * pose proof (path_text_abs rel Hh Ha) as H47. destruct (path_text rel) as [|c t] eqn:Ept; [discriminate H47|].
+        rewrite H47. cbn [f_auth f_path]. destruct (auth_text base); [reflexivity|].
+        rewrite H47. reflexivity.
+      * rewrite (path_text_rootless rel Hh Ha). destruct (pathSegs rel) as [|r1 rs] eqn:Ep.
+        { cbn [join_text path_pieces concat f_auth]. destruct (auth_text base); reflexivity. }
+        rewrite <- Ep in *. assert (pathSegs rel <> []) as Hne by (rewrite Ep; discriminate).
+        pose proof (wf_rootless_first rel Hwr Hh Ha) as Hf.
+        destruct (rootless_text (pathSegs rel) Hsr Hf Hne) as (c & t & Et & Hc47).
+        rewrite Et. cbn [head_is]. rewrite Hc47. rewrite <- Et. cbn [f_auth f_path].
+        destruct (is_host_set base) eqn:Hhb.
+        { destruct (Esome base Hhb) as [a Ea]. rewrite Ea. reflexivity. }
+        rewrite (Enone base Hhb). cbn [orb is_some_t]. unfold path_text. rewrite Hhb.
+        rewrite <- (merge_text (absolutePath base) false (pathSegs base) (pathSegs rel) Hne Hsbs).
+        assert (removelast (pathSegs base) ++ pathSegs rel <> []) as Hm
+          by (intros E; apply app_eq_nil in E; destruct E; congruence).
+        destruct (absolutePath base) eqn:Hab.
+        { apply corner_rooted. rewrite (path_text_of_rooted true false _ Hm eq_refl).
+          destruct (removelast (pathSegs base) ++ pathSegs rel); [congruence|reflexivity]. }
+        assert (path_text_of false false (removelast (pathSegs base) ++ pathSegs rel)
+                = join_text (removelast (pathSegs base) ++ pathSegs rel)) as Ej
+          by (unfold path_text_of; rewrite andb_false_r; reflexivity).
+        rewrite Ej. apply corner_rootless; [exact Hm| |].
+        { rewrite forallb_app. rewrite (forallb_removelast _ _ Hsbs), Hsr. reflexivity. }
+        pose proof (wf_rootless_first base Hwb Hhb Hab) as Hfb.
+        destruct (pathSegs base) as [|b1 [|b2 bs]]; [exact Hf|exact Hf|].
+        destruct b1; [discriminate Hfb|reflexivity].
+Qed.
